@@ -31,6 +31,24 @@ func (c *fsClient) BeforeInline(x *Exec, st *State, fr *Frame, site ssa.CallInst
 		g.setFlag("compactCommitted", nil)
 	case "(*Stack).reload":
 		g.setFlag("reloaded", tTrue)
+		if g.isSet("commitRenamed") {
+			// the list now names the transaction's tables: before anything that can
+			// fail runs, the transaction must have stopped treating them as its own
+			// to remove (a failing reload would otherwise end in Close deleting them)
+			var ks []string
+			for k, c := range st.mem {
+				if c.addr != nil && c.addr.Op == "field" && strings.HasSuffix(c.addr.Aux, ".newTables") && c.val != nil && c.val.Op == "list" && len(c.val.Args) > 0 {
+					ks = append(ks, k)
+				}
+			}
+			sort.Strings(ks)
+			key := c.entry + " / committed tables are no longer marked for removal"
+			if len(ks) > 0 {
+				c.violate(st, "ORDER-DELETE-LAST", key, site.Pos(), "after the list rename the transaction still records its new tables as files to remove while a step that can fail (the reload) runs: if it fails, closing the transaction deletes tables that the committed list names")
+			} else {
+				c.okay("ORDER-DELETE-LAST", key, "the record of new tables is cleared between the list rename and the reload")
+			}
+		}
 	case "(*Stack).reloadOnce":
 		g.setFlag("reloadOnceOK", nil)
 	case "(*Stack).readNames":
